@@ -719,6 +719,8 @@ void h(void) {
 def build(tier):
     report = {}
     groups = tridiag(report) + [schur(report)] + l1_norm(report) + eigenvectors_backsubst(report) + schur_helpers(report) + householder_kernels(tier, report)
+    from props import guards
+    groups += guards.groups(PROP, report)
     types, t, spec = hesseigen(report)
     h = spec.harness("h", "  HE Ev; HE *E = &Ev; E->m_n = nondet_Index(); __CPROVER_assume(0 <= E->m_n && E->m_n <= NMAXS); E->m_matT = MAT_NEW(E->m_n, E->m_n); E->kind = IVEC_NEW(E->m_n); E->m_eivalues = NULL;", "E")
     from props import skel
